@@ -64,11 +64,22 @@ def lake_build(targets, timeout=1500):
 
 
 def theorems_in(module_file):
-    """Names of the theorems stated in a Props file (namespace Eql assumed)."""
+    """Fully qualified names of the theorems stated in a Lean file (tracks namespace nesting)."""
     src = strip_comments(open(module_file).read())
-    ns = re.findall(r'^namespace\s+(\S+)', src, flags=re.M)
-    prefix = (ns[0] + '.') if ns else ''
-    return [prefix + n for n in re.findall(r'^\s*theorem\s+([A-Za-z_][\w\.\']*)', src, flags=re.M)]
+    stack, names = [], []
+    for line in src.splitlines():
+        m = re.match(r'^\s*namespace\s+(\S+)', line)
+        if m:
+            stack.append(m.group(1))
+            continue
+        m = re.match(r'^\s*end\s+(\S+)\s*$', line)
+        if m and stack and stack[-1] == m.group(1):
+            stack.pop()
+            continue
+        m = re.match(r'^\s*(?:private\s+|protected\s+)?theorem\s+([A-Za-z_][\w\.\']*)', line)
+        if m and not re.match(r'^\s*private', line):
+            names.append('.'.join(stack + [m.group(1)]))
+    return names
 
 
 def audit_axioms(module, names, timeout=900):
